@@ -195,7 +195,7 @@ func drawEncCase(t *rapid.T) encCase {
 	}
 	c.GoType = c.Type.GoString()
 	n := gen.UniformRange(t, "nrecords", 0, 8)
-	c.Records = gen.Records(t, c.Type, n, gen.ValueOpts{})
+	c.Records = gen.Records(t, c.Type, n, gen.ValueOpts{Big: true})
 	c.Compression = drawCompression(t)
 	c.BlockSize = rapid.SampledFrom([]int{0, 1, 7, 16, 40, 100, 400, 1 << 20}).Draw(t, "blocksize")
 	for i := 0; i < n; i++ {
